@@ -476,7 +476,7 @@ func checkC11(p *Program, r *Report) {
 	flagPackRule(p, r, "C11.pack", roots, 3, 5)
 	// the set both builders prove is the scanner's: its spender index must not lose spenders
 	spenderIndexRule(p, r, "C11.select")
-	r.Floor("C11.select", 2)
+	r.Floor("C11.select", 1)
 	c11sibling(p, r, nb, nf)
 	c11accepts(p, r, ext)
 	c11order(p, r)
